@@ -8,6 +8,7 @@ import EduceModel.Spec.Debug
 import EduceModel.Spec.Deref
 import EduceModel.Spec.Into
 import EduceModel.Spec.Default
+import EduceModel.Gen.Union
 /-
   Line-protocol driver: one JSON array per line in, one JSON array per line out.
   The executable definitions it runs are exactly the ones the theorems are about
@@ -54,6 +55,7 @@ structure DefJ where
   copy : Bool          -- Copy educed next to Clone
   isUnion : Bool
   defCfg : DefCfg
+  uattr : UnionAttr
   deriving Inhabited
 
 structure St where
@@ -128,6 +130,7 @@ def parseDef (j : Json) : DefJ :=
     tname := parseNameCfg (jfield j "tname"),
     isUnion := jstr (jfield j "kind") == "union",
     defCfg := { typeExpr := (jopt (jfield j "typeexpr")).map jnat, new := jbool (jfield j "new") },
+    uattr := { hasUnsafe := jbool (jfield (jfield j "uattr") "unsafe"), name := parseNameCfg (jfield (jfield j "uattr") "name") },
     variants := (jarr (jfield j "variants")).map fun v =>
       { name := (jstr (jfield v "name")).toList, shape := parseShape (jstr (jfield v "shape")),
         disc := (jopt (jfield v "disc")).map jint,
@@ -412,6 +415,35 @@ def handle (st : St) (j : Json) : St × Option Json :=
         | none => Json.str "refused"
       (st, some (Json.arr #["into", a[1]!, a[2]!, a[3]!, a[4]!, m, s]))
   else if op == "uimg" then (st, none)
+  else if op == "ueq" || op == "uhash" || op == "udbg" then
+    match st.defs.get? (jnat a[1]!) with
+    | none => (st, some (Json.arr #["error", "unknown def"]))
+    | some d =>
+      let bytes := natList a[2]!
+      if op == "ueq" then
+        let other := natList a[3]!
+        let m : Json := match Gen.Union.bytewise d.uattr with
+          | .error _ => Json.str "rejected"
+          | .ok _ => Json.bool (Sem.evalUnionEq bytes other)
+        (st, some (Json.arr #[op, a[1]!, a[2]!, a[3]!, m, Json.bool (bytes == other)]))
+      else if op == "uhash" then
+        let render (ws : List Sem.UWrite) : Json := Json.arr (ws.toArray.map fun w => match w with
+          | .usize n => Json.str ("usize:" ++ toString n)
+          | .bytes bs => Json.str ("bytes:[" ++ ", ".intercalate (bs.map toString) ++ "]"))
+        let m : Json := match Gen.Union.bytewise d.uattr with
+          | .error _ => Json.str "rejected"
+          | .ok _ => render (Sem.evalUnionHash bytes)
+        (st, some (Json.arr #[op, a[1]!, a[2]!, m, render [.usize bytes.length, .bytes bytes]]))
+      else
+        let alt := jbool a[3]!
+        let m : Json := match Gen.Union.debug d.name d.uattr with
+          | .error _ => Json.str "rejected"
+          | .ok bd => Json.str (Sem.evalUnionDebug bd bytes alt)
+        let inner : Fmt.Out := fun al => Fmt.debugList (bytes.map fun b => (fun _ => toString b)) al
+        let s : String := match Spec.effName d.uattr.name d.name with
+          | some n => Fmt.debugTuple (String.ofList n) [inner] alt
+          | none => inner alt
+        (st, some (Json.arr #[op, a[1]!, a[2]!, a[3]!, m, Json.str s]))
   else if op == "exprv" then ({ st with exprV := st.exprV.insert (jnat a[1]!) (jstr a[2]!) }, none)
   else if op == "dfltv" then ({ st with dfltV := st.dfltV.insert (jstr a[1]!) (jstr a[2]!) }, none)
   else if op == "texprv" then
